@@ -23,6 +23,7 @@ CONSTANTS NK,          \* packet keys 1..NK
           Bytes,       \* payload byte values (subset of 33..127)
           L,           \* payload limit (32)
           MaxEv,       \* bound on the number of pairs (CONSTRAINT)
+          ErrPairs,    \* data pairs <<b1, b2>> that may arrive with a parity error
           HalfGuard    \* TRUE: the length check counts the second byte of a pair (repaired code)
 
 Keys  == 1..NK
@@ -48,7 +49,7 @@ Init ==
   /\ cnt = [k \in Keys |-> 0] /\ buf = [k \in Keys |-> [i \in 0..(L + 1) |-> 0]]
   /\ chk = [k \in Keys |-> 0] /\ cur = NoKey
   /\ out = <<>> /\ maxidx = -1
-  /\ tx = [k \in Keys |-> [open |-> FALSE, bytes |-> <<>>, sum |-> 0]] /\ txcur = NoKey /\ ref = <<>>
+  /\ tx = [k \in Keys |-> [open |-> FALSE, bytes |-> <<>>, sum |-> 0, dead |-> FALSE]] /\ txcur = NoKey /\ ref = <<>>
   /\ info = [k \in Keys |-> <<>>] /\ cyc = [c \in 0..3 |-> {}] /\ evs = <<>>
   /\ nev = 0 /\ lastAct = [a |-> "init"]
 
@@ -110,30 +111,35 @@ RxError   == /\ IF cur # NoKey THEN Discard(cur) ELSE UNCHANGED <<cnt, chk, cur>
              /\ UNCHANGED <<buf, out, maxidx>> /\ NoDecode
 
 -----------------------------------------------------------------------------
-(* reference: the transmitter's view of its own packets *)
-Close(k) == /\ tx' = [tx EXCEPT ![k] = [open |-> FALSE, bytes |-> <<>>, sum |-> 0]] /\ txcur' = NoKey
+(* reference: the transmitter's own packets.  The transmitter does not know what the channel did
+   to a pair: it keeps sending the packet in progress (its checksum covers every byte it sent),
+   while for the reference a packet is dead - not deliverable until started again - from the
+   moment a pair of it arrived with a parity error or its 33rd byte was sent.               *)
+Closed == [open |-> FALSE, bytes |-> <<>>, sum |-> 0, dead |-> FALSE]
+Close(k) == /\ tx' = [tx EXCEPT ![k] = Closed] /\ txcur' = NoKey
 
 RefHeader(k, start) ==
-  IF start THEN /\ tx' = [tx EXCEPT ![k] = [open |-> TRUE, bytes |-> <<>>, sum |-> Hdr(k)]]
+  IF start THEN /\ tx' = [tx EXCEPT ![k] = [open |-> TRUE, bytes |-> <<>>, sum |-> Hdr(k), dead |-> FALSE]]
                 /\ txcur' = k /\ ref' = ref
   ELSE /\ txcur' = IF tx[k].open THEN k ELSE NoKey
        /\ UNCHANGED <<tx, ref>>
 
-RefData(b1, b2) ==
+\* the transmitter sends a data pair of the packet in progress; damaged = it arrives with a parity error
+RefData(b1, b2, damaged) ==
   IF txcur = NoKey THEN UNCHANGED refv
-  ELSE LET nb == tx[txcur].bytes \o (IF b2 = 0 THEN <<b1>> ELSE <<b1, b2>>) IN
-       IF Len(nb) > L THEN Close(txcur) /\ ref' = ref
-       ELSE /\ tx' = [tx EXCEPT ![txcur] = [open |-> TRUE, bytes |-> nb, sum |-> (@.sum + b1 + b2) % 128]]
-            /\ UNCHANGED <<txcur, ref>>
+  ELSE LET nb == tx[txcur].bytes \o (IF b2 = 0 THEN <<b1>> ELSE <<b1, b2>>)
+           over == Len(nb) > L
+       IN /\ tx' = [tx EXCEPT ![txcur] = [open |-> TRUE, bytes |-> IF over THEN @.bytes ELSE nb,
+                                          sum |-> (@.sum + b1 + b2) % 128, dead |-> @.dead \/ over \/ damaged]]
+          /\ UNCHANGED <<txcur, ref>>
 
 RefEnd(c) ==
   IF txcur = NoKey THEN UNCHANGED refv
-  ELSE /\ ref' = IF (tx[txcur].sum + EndC1 + c) % 128 = 0 /\ Len(tx[txcur].bytes) >= 1
+  ELSE /\ ref' = IF ~tx[txcur].dead /\ (tx[txcur].sum + EndC1 + c) % 128 = 0 /\ Len(tx[txcur].bytes) >= 1
                  THEN Append(ref, <<txcur, tx[txcur].bytes>>) ELSE ref
        /\ Close(txcur)
 
 RefCaption == txcur' = NoKey /\ UNCHANGED <<tx, ref>>
-RefError   == IF txcur # NoKey THEN Close(txcur) /\ ref' = ref ELSE UNCHANGED refv
 
 \* the checksum byte an honest transmitter appends to the packet in progress
 GoodSum == IF txcur = NoKey THEN 0 ELSE (256 - ((tx[txcur].sum + EndC1) % 128)) % 128
@@ -143,18 +149,20 @@ Tick(a) == nev' = nev + 1 /\ lastAct' = a
 
 Header(k, start) == RxHeader(k, start) /\ RefHeader(k, start)
                     /\ Tick([a |-> IF start THEN "Start" ELSE "Cont", k |-> k])
-Data(b1, b2)     == RxData(b1, b2) /\ RefData(b1, b2) /\ Tick([a |-> "Data", b1 |-> b1, b2 |-> b2])
+Data(b1, b2)     == RxData(b1, b2) /\ RefData(b1, b2, FALSE) /\ Tick([a |-> "Data", b1 |-> b1, b2 |-> b2])
 End(good)        == LET c == IF good THEN GoodSum ELSE (GoodSum + 1) % 128
                     IN RxEnd(c) /\ RefEnd(c) /\ Tick([a |-> "End", c |-> c])
 EndC(c)          == RxEnd(c) /\ RefEnd(c) /\ Tick([a |-> "End", c |-> c])
 Caption          == RxCaption /\ RefCaption /\ Tick([a |-> "Caption"])
 Null             == RxNull /\ UNCHANGED refv /\ Tick([a |-> "Null"])
-Error            == RxError /\ RefError /\ Tick([a |-> "Error"])
+\* a data pair of the transmitter (b1, b2) arrives with a parity error
+Error(b1, b2)    == RxError /\ RefData(b1, b2, TRUE) /\ Tick([a |-> "Error", b1 |-> b1, b2 |-> b2])
 
 Next == \/ \E k \in Keys, s \in BOOLEAN : Header(k, s)
         \/ \E b1 \in Bytes, b2 \in Bytes \cup {0} : Data(b1, b2)
         \/ \E g \in BOOLEAN : End(g)
-        \/ Caption \/ Null \/ Error
+        \/ Caption \/ Null
+        \/ \E e \in ErrPairs : Error(e[1], e[2])
 
 Spec == Init /\ [][Next]_vars
 
@@ -165,9 +173,9 @@ Delivered == out = ref                              \* C09, first sentence
 InBounds  == maxidx < L                             \* "never corrupt ... memory"
 LengthOK  == \A i \in 1..Len(out) : Len(out[i][2]) \in 1..L
 NoCross   == \A k \in Keys : cnt[k] > 0 =>          \* a packet in progress holds exactly its own bytes
-               /\ tx[k].open /\ Len(tx[k].bytes) = cnt[k] - 2
+               /\ tx[k].open /\ ~tx[k].dead /\ Len(tx[k].bytes) = cnt[k] - 2
                /\ \A i \in 1..(cnt[k] - 2) : buf[k][i - 1] = tx[k].bytes[i]
-CurAgree  == cur = txcur
+CurAgree  == cur = (IF txcur # NoKey /\ ~tx[txcur].dead THEN txcur ELSE NoKey)
 \* information layer: the text of a key is the last delivered content of that key
 LastOf(k) == LET idx == {i \in 1..Len(out) : out[i][1] = k} IN
              IF idx = {} THEN <<>> ELSE out[CHOOSE i \in idx : \A j \in idx : j <= i][2]
